@@ -34,6 +34,14 @@ fn main() {
         (p, None, _) => p.to_string(),
     };
     let mut entry = json!({"seq": seq, "prog": prog, "kind": kind, "argv": argv, "cwd": std::env::current_dir().map(|p| p.to_string_lossy().to_string()).unwrap_or_default()});
+    // which daemon this command addresses: the variables the docker CLI (and pack) pick their endpoint from
+    let mut endpoint = serde_json::Map::new();
+    for k in ["DOCKER_HOST", "DOCKER_CONTEXT", "DOCKER_CONFIG", "DOCKER_TLS_VERIFY", "DOCKER_CERT_PATH", "DOCKER_API_VERSION"] {
+        if let Ok(v) = std::env::var(k) {
+            endpoint.insert(k.to_string(), json!(v));
+        }
+    }
+    entry["endpoint_env"] = Value::Object(endpoint);
     if kind == "pack build" {
         if let Some(i) = argv.iter().position(|a| a == "--path") {
             if let Some(p) = argv.get(i + 1) {
